@@ -1,4 +1,5 @@
-import RpycModel.Spec.Lemmas
+import RpycModel.Spec.Grammar
+import RpycModel.Spec.WireBridge
 /-
 C19 — bytes on the wire are those of the published 5.x protocol.
 Only property theorems and their non-vacuity examples live here (namespace Rpyc.Props.C19); the
@@ -131,6 +132,13 @@ theorem frame_eq_spec (deflate : Bytes → Bytes) (compress : Bool) (data : Byte
     Code.channelSend deflate compress data = sendFrame deflate compress data :=
   channelSend_eq deflate compress data
 
+/-- the frame of C05's independently written model of `Channel.send` (RpycModel/Wire/Model.lean, the one
+C05's stream theorems are about) is this same published frame -/
+theorem frame_eq_wire_model (z : Wire.ZlibFns) (compress : Bool) (data : Bytes) :
+    Wire.frame z compress data = sendFrame z.compress compress data
+    ∧ Code.channelSend z.compress compress data = Wire.frame z compress data :=
+  ⟨wire_frame_published z compress data, channelSend_eq_wire_frame z compress data⟩
+
 /-- **any conforming frame is accepted and means the same**: whatever compressor the sender used (any
 level, any implementation — `deflate'`), or none at all, `Channel.recv` returns the data, provided only
 that the receiver's zlib inverts it. -/
@@ -238,6 +246,44 @@ theorem unbox_reads_published (v p : Val) (xs : List Boxed) :
     simp [Code.unboxNode, Boxed.toVal, c_labelValue, c_labelTuple, c_labelLocalRef, c_labelRemoteRef,
       LABEL_VALUE, LABEL_TUPLE, LABEL_LOCAL_REF, LABEL_REMOTE_REF]
 
+/-! ### (3), (4) the grammar: every legal form is accepted and means the same; `dump` emits a shortest one -/
+
+/-- **decoder complete for the grammar**: every byte string that denotes `v` in the published format — in
+any fitting length class, shortest or not, e.g. a 3-byte string sent with TAG_STR_L4, a 2-tuple with
+TAG_TUP_L1, a small integer as decimal text — is loaded, and loaded as exactly `v` (a frozenset comes
+back with its members in wire order).  `Parsable`: every integer has no more digits than the
+interpreter's `int()` accepts. -/
+theorem dec_complete (bs : Bytes) (v : Val) (h : Denotes bs v) (hp : Parsable v = true) :
+    Brine.load bs = .ok v := by
+  have hn := (need_le_denotes h).1
+  have := dec_denotes h hp (2 * bs.length + 2) [] (by omega)
+  simp only [List.append_nil] at this
+  simp [Brine.load, this]
+
+/-- the same inside any stream: exactly the sentence is consumed -/
+theorem dec_complete_stream (bs tail : Bytes) (v : Val) (h : Denotes bs v) (hp : Parsable v = true)
+    (fuel : Nat) (hf : Brine.need v ≤ fuel) : Brine.dec fuel (bs ++ tail) = .ok (v, tail) :=
+  dec_denotes h hp fuel tail hf
+
+/-- **`dump` emits a shortest form**: no byte string denoting `v` is shorter than `dump v` -/
+theorem enc_shortest (bs : Bytes) (v : Val) (h : Denotes bs v) (hr : Renderable v = true)
+    (e : Bytes) (he : Brine.dump v = .ok e) : e.length ≤ bs.length := by
+  unfold Brine.dump at he
+  rw [enc_eq_specEncWith v hr] at he
+  exact specEncWith_shortest h _ e he
+
+/-- … and `dump v` is itself a sentence denoting `v` (so the minimum is attained by it) -/
+theorem enc_in_grammar (v : Val) (hw : v.wf = true) (hr : Renderable v = true) (hs : ScalarText v = true)
+    (e : Bytes) (he : Brine.dump v = .ok e) : Denotes e v := by
+  rw [enc_eq_specEnc v hr hs] at he
+  exact specEnc_denotes v e hw he
+
+/-- the search over the form table returns a fitting form with a minimal header -/
+theorem pick_is_shortest_fitting (forms : List Form) (n : Nat) (f : Form) (hf : f ∈ forms)
+    (hfit : f.fits n = true) : ∃ g, pick forms n = some g ∧ g ∈ forms ∧ g.fits n = true ∧ g.cost ≤ f.cost := by
+  obtain ⟨g, hg, hle⟩ := pick_min forms n f hf hfit
+  exact ⟨g, hg, (pick_sound forms n g hg).1, (pick_sound forms n g hg).2, hle⟩
+
 /-! ### non-vacuity -/
 
 /-- a `getattr(root, "answer")` request whose first argument is the peer's own object, as published -/
@@ -260,5 +306,25 @@ example : ScalarText (.str [0xD800]) = false ∧ specEnc (.str [0xD800]) = .erro
 example : specEnc (.bytes (List.replicate 255 7)) = .ok (0x0e :: 255 :: List.replicate 255 7)
     ∧ specEnc (.bytes (List.replicate 256 7)) = .ok (0x0f :: 0 :: 0 :: 1 :: 0 :: List.replicate 256 7) := by
   decide +kernel
+
+/-- non-shortest sentences: "abc" with the four-byte length class, a pair with TAG_TUP_L1, 5 as text -/
+example : Denotes [0x0f, 0, 0, 0, 3, 0x61, 0x62, 0x63] (.bytes [0x61, 0x62, 0x63]) :=
+  Denotes.bytes [0x61, 0x62, 0x63] ⟨"TAG_STR_L4", TAG_STR_L4, .l4⟩ (by decide) (by decide)
+/-- the small integer 5 written as decimal text (legal, not shortest) -/
+theorem five_as_text : Denotes [0x16, 1, 0x35] (.int 5) := by
+  have h5 : intRepr 5 = [0x35] := by simp [intRepr, natDigits]
+  have := Denotes.intText 5 ⟨"TAG_INT_L1", TAG_INT_L1, .l1⟩ (by decide) (by rw [h5]; decide)
+  rw [h5] at this
+  exact this
+/-- a pair announced with TAG_TUP_L1 whose first member is 5 as text -/
+theorem pair_in_long_form : Denotes [0x14, 2, 0x16, 1, 0x35, 0x00] (.tuple [.int 5, .none]) :=
+  Denotes.tuple [.int 5, .none] ⟨"TAG_TUP_L1", TAG_TUP_L1, .l1⟩ [0x16, 1, 0x35, 0x00] (by decide) (by decide)
+    (DenotesL.cons (.int 5) [.none] [0x16, 1, 0x35] [0x00] five_as_text
+      (DenotesL.cons .none [] [0x00] [] Denotes.none DenotesL.nil))
+example : Brine.load [0x14, 2, 0x16, 1, 0x35, 0x00] = .ok (.tuple [.int 5, .none]) :=
+  dec_complete _ _ pair_in_long_form (by decide +kernel)
+/-- … while `dump` of the same value takes 3 bytes, not 6 -/
+example : Brine.dump (.tuple [.int 5, .none]) = .ok [0x11, 0x55, 0x00] := by decide +kernel
+example : Parsable docSample = true ∧ docSample.wf = true := by decide +kernel
 
 end Rpyc.Props.C19
